@@ -207,6 +207,7 @@ func run(c *vf.Ctx) {
 		sectionE(c, a)
 		tabA := prepA(c, a)
 		tabB := prepB(c, a)
+		tabL := prepL(c, a)
 		for _, p := range have {
 			if !a.setPath(p) || a.current() != p {
 				c.Violation(a.class("dispatch hook could not select "+p), nil)
@@ -220,7 +221,9 @@ func run(c *vf.Ctx) {
 			sectionC(c, a, p)
 			t3 := time.Now()
 			sectionD(c, a, p)
-			c.Set("wall_s_"+a.name+"_"+p, fmt.Sprintf("A=%.1f B=%.1f C=%.1f D=%.1f", t1.Sub(t0).Seconds(), t2.Sub(t1).Seconds(), t3.Sub(t2).Seconds(), time.Since(t3).Seconds()))
+			t4 := time.Now()
+			sectionL(c, a, p, tabL)
+			c.Set("wall_s_"+a.name+"_"+p, fmt.Sprintf("A=%.1f B=%.1f C=%.1f D=%.1f L=%.1f", t1.Sub(t0).Seconds(), t2.Sub(t1).Seconds(), t3.Sub(t2).Seconds(), t4.Sub(t3).Seconds(), time.Since(t4).Seconds()))
 			c.Outcome(a.name + "/" + p + " done")
 		}
 		a.restore()
@@ -579,10 +582,12 @@ func sectionC(c *vf.Ctx, a *alg, path string) {
 			},
 			Run: func(hist []op) (key string, stop bool, mis string) {
 				defer recoverRun(&stop, &mis)
-				h, err := a.newHash(cf.size, cf.key)
+				pk := append([]byte(nil), cf.key...) // nil stays nil
+				h, err := a.newHash(cf.size, pk)
 				if err != nil {
 					return "", true, "constructor error in history"
 				}
+				clobber(pk) // every later Reset must restore the state keyed with the ORIGINAL key
 				pos := 0 // bytes written since the last Reset; data always comes from stream[pos:]
 				sums := 0
 				for _, o := range hist {
@@ -607,8 +612,7 @@ func sectionC(c *vf.Ctx, a *alg, path string) {
 						if len(got) != 3+cf.size || string(got[:3]) != "pfx" || !bytes.Equal(got[3:], want) {
 							return "", true, "history: Sum != RFC 7693 digest of bytes written since Reset"
 						}
-						clobber(got) // the result (and the spare capacity behind it) is the caller's
-						clobber(got[:cap(got)])
+						clobber(got[:cap(got)]) // the result (and the spare capacity behind it) is the caller's
 					}
 				}
 				// final observation so that Write/Reset as last operation are observed as well
@@ -619,6 +623,135 @@ func sectionC(c *vf.Ctx, a *alg, path string) {
 			},
 		})
 	}
+}
+
+// ---------------------------------------------------------------- section L (long inputs)
+
+type caseL struct {
+	cf    config
+	class int
+	L     int
+	msg   []byte // prefix of the class's long buffer (shared, never written)
+	want  []byte
+}
+
+// longPlans calls f with the chunkings used for a long message: one Write; the bulk
+// after a 1-byte / (B-1)-byte / (B+1)-byte first write (unaligned source, partly filled buffer);
+// two halves meeting one byte past the power of two below; strides 4095 and 65537
+// (write boundaries cross every 2^j + small point).
+func (a *alg) longPlans(L int, f func(name string, plan []int) bool) {
+	B := a.B
+	if !f("one", []int{L}) {
+		return
+	}
+	for _, first := range []int{1, B - 1, B + 1} {
+		if !f(fmt.Sprintf("%d+rest", first), []int{first, L - first}) {
+			return
+		}
+	}
+	half := 1
+	for half*2 < L {
+		half *= 2
+	}
+	if !f("pow2+1|rest", []int{half/2 + 1, L - half/2 - 1}) {
+		return
+	}
+	for _, st := range []int{4095, 65537} {
+		if L <= st {
+			continue
+		}
+		var p []int
+		for r := L; r > 0; r -= st {
+			p = append(p, min(r, st))
+		}
+		if !f(fmt.Sprintf("stride%d", st), p) {
+			return
+		}
+	}
+}
+
+func prepL(c *vf.Ctx, a *alg) []caseL {
+	B := a.B
+	kmax := 22
+	var lens []int
+	seen := map[int]bool{}
+	for k := 10; k <= kmax; k++ {
+		for _, d := range []int{-1, 0, 1, B - 1, B, B + 1} {
+			if L := 1<<k + d; !seen[L] {
+				seen[L] = true
+				lens = append(lens, L)
+			}
+		}
+	}
+	cfgs := []config{{a.maxSize, nil}, {a.maxSize, c.Bytes(a.name+"-L-key", 0, a.maxKey)}}
+	nclass := 1
+	if c.Thorough {
+		cfgs = append(cfgs, config{a.sizes[0], c.Bytes(a.name+"-L-key", 1, 1)})
+		nclass = 2
+	}
+	var cs []caseL
+	for cl := 0; cl < nclass; cl++ {
+		long := c.Bytes(a.name+"-L-msg", cl, 1<<kmax+B+1)
+		if cl == 1 {
+			for i := range long {
+				long[i] = 0xff // every carry-propagating addend at its maximum
+			}
+		}
+		for _, cf := range cfgs {
+			for _, L := range lens {
+				cs = append(cs, caseL{cf: cf, class: cl, L: L, msg: long[:L]})
+			}
+		}
+	}
+	pfor(c, a.name+" section L-prep", len(cs), func(i int) {
+		x := &cs[len(cs)-1-i] // longest first
+		x.want = a.ref(x.cf.size, x.cf.key, x.msg)
+	})
+	return cs
+}
+
+func sectionL(c *vf.Ctx, a *alg, path string, cs []caseL) {
+	pfor(c, a.name+" section L", len(cs), func(j int) {
+		x := &cs[len(cs)-1-j]
+		h, err := a.newHash(x.cf.size, x.cf.key)
+		if err != nil {
+			c.Violation(a.class("constructor/Write error"), map[string]any{"size": x.cf.size, "keylen": len(x.cf.key), "err": err.Error()})
+			return
+		}
+		nplans := 0
+		a.longPlans(x.L, func(name string, plan []int) bool {
+			nplans++
+			h.Reset() // the object is reused: every plan also starts from a used-and-Reset state
+			pos := 0
+			for _, n := range plan {
+				h.Write(x.msg[pos : pos+n])
+				pos += n
+			}
+			if pos != x.L {
+				panic("bad long plan")
+			}
+			got := h.Sum(nil)
+			c.Eval(1)
+			if !bytes.Equal(got, x.want) {
+				c.Violation(a.class("digest != RFC 7693 ["+path+"] (long input)"),
+					map[string]any{"path": path, "size": x.cf.size, "keylen": len(x.cf.key), "msglen": x.L, "class": x.class, "chunking": name,
+						"got": fmt.Sprintf("%x", got), "want": fmt.Sprintf("%x", x.want)})
+				return false
+			}
+			return true
+		})
+		if f, ok := a.oneShot[x.cf.size]; ok && len(x.cf.key) == 0 {
+			c.Eval(1)
+			if got := f(x.msg); !bytes.Equal(got, x.want) {
+				c.Violation(a.class(fmt.Sprintf("one-shot Sum%d != RFC 7693 [%s] (long input)", 8*x.cf.size, path)),
+					map[string]any{"path": path, "msglen": x.L, "class": x.class, "got": fmt.Sprintf("%x", got), "want": fmt.Sprintf("%x", x.want)})
+			}
+		}
+		c.Nontrivial(fmt.Sprintf("L/%s/%s/%d/%d/%d/%d", a.name, path, x.cf.size, len(x.cf.key), x.class, x.L))
+		if x.L == 1<<22+a.B+1 && x.class == 0 && len(x.cf.key) > 0 {
+			c.Sample(map[string]any{"section": "L", "alg": a.name, "path": path, "size": x.cf.size, "keylen": len(x.cf.key), "msglen": x.L, "chunkings": nplans})
+		}
+	})
 }
 
 // ---------------------------------------------------------------- section D
@@ -676,7 +809,7 @@ func sectionD(c *vf.Ctx, a *alg, path string) {
 		tops = append(tops, 1<<31, 1<<16)
 	}
 	for _, top := range tops {
-		for back := 1; back <= 3; back++ {
+		for _, back := range []int{1, 2, 3, 100} { // 100: the carry happens deep inside one long hashBlocks call
 			for _, hi := range []uint64{0, 5} {
 				for _, off := range []int{0, 1, B - 1, B} {
 					seeds = append(seeds, seed{top, back, hi, off})
@@ -684,7 +817,8 @@ func sectionD(c *vf.Ctx, a *alg, path string) {
 			}
 		}
 	}
-	wlens := []int{0, 1, B - 1, B, B + 1, 2 * B, 2*B + 1, 3 * B, 3*B + 1, 4*B + 1, 6 * B}
+	wlens := []int{0, 1, B - 1, B, B + 1, 2 * B, 2*B + 1, 3 * B, 3*B + 1, 4*B + 1, 6 * B, 100 * B, 100*B + 1, 101*B + 1, 300*B + 7}
+	maxw := wlens[len(wlens)-1]
 	pfor(c, a.name+" section D", len(seeds), func(i int) {
 		s := seeds[i]
 		hbytes := c.Bytes(a.name+"-D-h", i, 64)
@@ -693,7 +827,7 @@ func sectionD(c *vf.Ctx, a *alg, path string) {
 		for j := s.offset; j < B; j++ {
 			block[j] = 0
 		}
-		data := c.Bytes(a.name+"-D-data", i, 6*B)
+		data := c.Bytes(a.name+"-D-data", i, maxw)
 		var st []byte
 		var hb [8]uint64
 		var hs [8]uint32
